@@ -330,6 +330,8 @@ class G:
                 self.f("scalar_tensor")
             else:
                 shape = [rng.choice([1, 1, 2, 3, 4, 8]) for _ in range(rng.choice([1, 2, 3, 4, 4, 4, 5]))]
+                if const and rng.random() < 0.04:
+                    shape[rng.randrange(len(shape))] = 0
         buf = 0
         if const and DTYPES[dtype][1]:
             n = int(np.prod(shape)) if shape else 1
@@ -614,7 +616,8 @@ class G:
         m = self.m
         sg = rng.choice(m.subgraphs)
         which = rng.choice(["tensor_index", "opcode_index", "buffer_index", "unknown_builtin", "unknown_dtype", "data_size", "io_index",
-                            "no_inputs_vector", "no_outputs_vector", "meta_buffer", "produced_input", "op_no_inputs_vector"])
+                            "no_inputs_vector", "no_outputs_vector", "meta_buffer", "produced_input", "op_no_inputs_vector",
+                            "weights_minus1", "result_minus1", "weights_rank"])
         self.f("malformed_" + which)
         ops = [o for o in sg.ops]
         if which == "tensor_index" and ops:
@@ -650,6 +653,20 @@ class G:
             prod = [o for op in sg.ops for o in (op.outputs or []) if o >= 0]
             if prod:
                 sg.inputs.append(rng.choice(prod))
+        elif which in ("weights_minus1", "weights_rank"):
+            BO = _bo()
+            x = self.tensor(sg, shape=[1, 4, 4, 2], dtype=9)
+            if which == "weights_minus1":
+                w = -1
+            else:
+                rank = rng.choice([1, 2, 3, 5])
+                w = self.tensor(sg, shape=[2] * rank, dtype=9, const=True, quant=None)
+            o = self.tensor(sg, shape=[1, 4, 4, 2], dtype=9)
+            sg.ops.append(WO(self.code(BO.CONV_2D), [x, w], [o], ("Conv2DOptions", dict(Padding=0, StrideW=1, StrideH=1, DilationWFactor=1,
+                                                                                      DilationHFactor=1, FusedActivationFunction=0))))
+        elif which == "result_minus1" and ops:
+            o = rng.choice(ops)
+            o.outputs = list(o.outputs or []) + [-1]
         elif which == "op_no_inputs_vector" and ops:
             o = rng.choice(ops)
             if rng.random() < 0.5:
